@@ -597,6 +597,10 @@ class t2listing(object):
             nextpt = line.find('.', pt + 1)
             if nextpt < 0 : nextpt = len(line)
             s = line[pt + 1: nextpt - 1].lower()
+            # look only at the first number's own characters (up to the first blank), so
+            # that the sign of a following negative number is not taken for an exponent sign:
+            blankpos = s.find(' ')
+            if blankpos >= 0: s = s[:blankpos]
             exponential = s.find('e') >= 0 or s.find('+') >= 0 or s.find('-') >= 0
             if exponential:
                 c = line[pt - 2]
